@@ -413,6 +413,11 @@ class Gen:
                     pos_tok = hi_tok
                 inserts.append((src.toks[pos_tok].start, '\n' + txt + '\n'))
                 continue
+            if needle == '@close':
+                # after the last expression of a `()` block: the tail expression becomes a statement, the proof follows it
+                inserts.append((src.toks[hi_tok].start, ';\n' + txt + '\n'))
+                self.drops.add('R2: the tail expression of a unit-valued body is made a statement (`;`) so that a proof block can follow it')
+                continue
             base = src.toks[lo_tok].start
             body = src.text[base:src.toks[hi_tok].end]
             pos = -1
@@ -1057,11 +1062,22 @@ class Gen:
                     raise LostAnchor('loopbody: `continue \'%s` has no value in labels=' % lab)
                 proofs = list(proofs) + [(0, '@span', (src.toks[k].start, src.toks[k + 1].end, 'return ' + labels[lab]))]
                 self.drops.add("R4: `continue '%s` of a sliced loop body becomes `return %s`" % (lab, labels[lab]))
+        # R4: a bare `return;` inside the sliced body leaves the ENCLOSING function; the body function reports that with the value the
+        # directive names (`ret=EXPR`), and the summary that replaces the loop in the enclosing function returns on it
+        if 'ret' in kw:
+            rv = kw['ret'].replace('~', ' ')
+            for k in range(bopen + 1, src.match[bopen]):
+                if any(a <= k <= b for a, b in stubbed):
+                    continue
+                if src.is_id(k, 'return') and src.is_p(k + 1, ';'):
+                    proofs = list(proofs) + [(0, '@span', (src.toks[k].start, src.toks[k].end, 'return ' + rv))]
+                    self.drops.add('R4: `return;` of the enclosing function inside a sliced loop body becomes `return %s`' % rv)
         # R4: a `continue` of THIS loop (not of a nested loop / closure) ends the body function: `return [suffix]`
         inner = [(l[0], src.match[l[3]]) for l in find_loops(src, bopen + 1, src.match[bopen])]
         for k in range(bopen + 1, src.match[bopen]):
             if src.is_id(k, 'continue') and src.is_p(k + 1, ';') and not any(a < k < b for a, b in inner):
-                proofs = list(proofs) + [(0, '@span', (src.toks[k].start, src.toks[k].end, ('return ' + suffix).strip()))]
+                cv = kw['cont'].replace('~', ' ') if 'cont' in kw else suffix
+                proofs = list(proofs) + [(0, '@span', (src.toks[k].start, src.toks[k].end, ('return ' + cv).strip()))]
                 self.drops.add('R4: `continue` of a sliced loop body becomes `return`')
         segs = self.body_with_insertions(src, bopen, src.match[bopen], lins, proofs, rel)
         self.emit_segs(segs, rel)
